@@ -306,3 +306,8 @@ Definition protocol_repaired : protocol :=
      p_impl := [[PEx; PCommitM]];
      p_data_fail_drops := true; p_rm_fail_drops := true; p_coord_commit := true;
      p_worker_iface_commit := true; p_worker_impl_commit := true; p_final_commit := true |}.
+
+(* build-level record: @plugins_snapshot.json vouches for ALL module entries (find_cache_meta abandons every
+   entry when the recorded snapshot and the current one are both non-empty and differ).  Order of events in
+   build.dispatch; semantics in Snapshot.v *)
+Inductive snapstep := SnInval | SnGraph | SnWrite.
